@@ -150,6 +150,11 @@ FAMILY = [
     dict(levels=[dict(kind='left', ops=['+'], rule='e0', shape='alias_after', alias='a0')], paren=False, stmt=None),
     dict(levels=[dict(kind='left', ops=['+', '-'], rule='e0', shape='split', cuts=[True, False], postfix='++')], paren=False, stmt=None),
     dict(levels=[dict(kind='left', ops=['+'], rule='e0', shape='twin')], paren=False, stmt=None),
+    # a level whose prefix-operator alternative comes before its recursive ones, under an ordinary level (growth inside growth)
+    dict(levels=[dict(kind='left', ops=['+', '-'], rule='e0', shape='direct'), dict(kind='left', ops=['*'], rule='e1', shape='prefalt', pref='!')], paren=True, stmt=None),
+    # rule names that a generated parser has to spell differently (Python keywords and builtins)
+    dict(levels=[dict(kind='left', ops=['+'], rule='or', shape='direct'), dict(kind='left', ops=['*'], rule='and', shape='direct'), dict(kind='unary', ops=['-'], rule='not')], paren=False, stmt=None),
+    dict(levels=[dict(kind='left', ops=['+'], rule='type', shape='named'), dict(kind='left', ops=['*'], rule='list', shape='split', cuts=[False], postfix=None)], paren=True, stmt=None),
     dict(levels=[dict(kind='left', ops=['+'], rule='e0', shape='mutual', partner_op='<<'), dict(kind='left', ops=['*'], rule='e1', shape='direct')], paren=False, stmt=None),
 ]
 
@@ -182,7 +187,7 @@ def run_shard(sh, kind, **kw):
 def run_random(sh, n):
     def body(rnd):
         reset_tatsu_state()
-        spec = lrgen.gen_spec(rnd)
+        spec = lrgen.gen_spec(rnd, pynames=True)
         start = rnd.choice(starts_of(spec)) if rnd.random() < 0.4 else spec['levels'][0]['rule']
         gtext = tu.wrapped_text(lrgen.spec_text(spec), start)
         try:
